@@ -16,6 +16,7 @@ package main
 import (
 	"crypto/md5"
 	"encoding/base64"
+	"fmt"
 	"strconv"
 	"strings"
 	"time"
@@ -119,6 +120,27 @@ func symValue(v string, now int64) (string, bool) {
 				}
 			}
 			out.WriteString(myEncode(pre.String()))
+		case 'm': // a near miss of encode(pre): m<kind>!<pre>
+			onlyC = false
+			i := strings.IndexByte(a, '!')
+			if i < 0 || len(atoms) != 1 {
+				return "", false
+			}
+			var pre strings.Builder
+			if a[i+1:] != "-" {
+				for _, pa := range strings.Split(a[i+1:], "~") {
+					s, ok := plainAtom(pa, now, "")
+					if !ok {
+						return "", false
+					}
+					pre.WriteString(s)
+				}
+			}
+			s, ok := mangle(a[1:i], myEncode(pre.String()))
+			if !ok {
+				return "", false
+			}
+			out.WriteString(s)
 		default:
 			return "", false
 		}
@@ -133,6 +155,88 @@ func symValue(v string, now int64) (string, bool) {
 		}
 	}
 	return s, true
+}
+
+const b64url = "ABCDEFGHIJKLMNOPQRSTUVWXYZabcdefghijklmnopqrstuvwxyz0123456789-_"
+
+// mangle turns the documented checksum string enc (22 characters) into a different spelling that a lenient
+// comparison (decode-then-compare, trimming, case folding ...) might still accept.  ok=false if the kind is
+// unknown or does not change enc.
+func mangle(kind, enc string) (string, bool) {
+	if len(enc) != 22 {
+		return "", false
+	}
+	var out string
+	switch {
+	case strings.HasPrefix(kind, "sib"): // last character replaced by one with the same two significant bits
+		k, err := strconv.Atoi(kind[3:])
+		v := strings.IndexByte(b64url, enc[21])
+		if err != nil || k < 1 || k > 15 || strconv.Itoa(k) != kind[3:] || v < 0 {
+			return "", false
+		}
+		out = enc[:21] + string(b64url[(v&^15)|((v+k)&15)])
+	case strings.HasPrefix(kind, "ins"): // a white-space byte inserted
+		p := strings.Split(kind[3:], "x")
+		if len(p) != 2 {
+			return "", false
+		}
+		pos, err := strconv.Atoi(p[0])
+		if err != nil || (pos != 0 && pos != 11 && pos != 22) || strconv.Itoa(pos) != p[0] {
+			return "", false
+		}
+		var c byte
+		switch p[1] {
+		case "0d":
+			c = '\r'
+		case "0a":
+			c = '\n'
+		case "20":
+			c = ' '
+		case "09":
+			c = '\t'
+		default:
+			return "", false
+		}
+		out = enc[:pos] + string(c) + enc[pos:]
+	case kind == "pad1":
+		out = enc + "="
+	case kind == "pad2":
+		out = enc + "=="
+	case kind == "std": // standard alphabet
+		out = strings.NewReplacer("-", "+", "_", "/").Replace(enc)
+	case strings.HasPrefix(kind, "case"):
+		i, err := strconv.Atoi(kind[4:])
+		if err != nil || i < 0 || i > 21 || strconv.Itoa(i) != kind[4:] {
+			return "", false
+		}
+		b := []byte(enc)
+		for ; i < 22; i++ {
+			if b[i] >= 'a' && b[i] <= 'z' || b[i] >= 'A' && b[i] <= 'Z' {
+				b[i] ^= 0x20
+				break
+			}
+		}
+		out = string(b)
+	case kind == "dpe": // first character percent-encoded once more than the server decodes
+		out = fmt.Sprintf("%%%02X", enc[0]) + enc[1:]
+	default:
+		return "", false
+	}
+	return out, out != enc
+}
+
+// queryEscape writes a decoded query value into the raw query.
+func queryEscape(v string) string {
+	var sb strings.Builder
+	for i := 0; i < len(v); i++ {
+		c := v[i]
+		if strings.IndexByte(alnum+"_-.=", c) >= 0 {
+			sb.WriteByte(c)
+		} else {
+			fmt.Fprintf(&sb, "%%%02X", c)
+		}
+	}
+	return sb.String()
 }
 
 func execSlink(f []string) string {
@@ -239,7 +343,7 @@ func execSlinkAt(f []string, now int64) string {
 		if !ok {
 			return "bad-op"
 		}
-		qs = append(qs, k+"="+strings.ReplaceAll(v, "+", "%2B"))
+		qs = append(qs, k+"="+queryEscape(v))
 	}
 	hdr := bfe_http.Header{}
 	for _, kv := range splitList(rq[4], "+") {
@@ -297,7 +401,7 @@ func slExpr(nodes []string, host, ra, path string, q []slPair, hd []slPair) (str
 			return true
 		}
 		for _, a := range strings.Split(v, ".") {
-			if a[0] == 'e' {
+			if a[0] == 'e' || a[0] == 'm' {
 				return false
 			}
 			pre = append(pre, a)
@@ -462,6 +566,25 @@ func genSlink(r *vh.Rand) string {
 		sum = ""
 	case 4: // a first, wrong value shadows the right one
 		q = append(q, slPair{ckName, "c" + hx("zzz")})
+	case 5, 6, 7: // near misses of the right checksum: spellings a lenient comparison would accept
+		if plain {
+			kind := "sib" + strconv.Itoa(r.Range(1, 15))
+			switch r.Intn(8) {
+			case 0, 1:
+				kind = "ins" + r.Pick("0", "11", "22") + "x" + r.Pick("0d", "0a", "20", "09")
+			case 2:
+				kind = r.Pick("pad1", "pad2")
+			case 3:
+				kind = "case" + strconv.Itoa(r.Intn(12))
+			case 4:
+				kind = "dpe"
+			case 5:
+				if enc, ok := concreteEncode(pre); ok && strings.ContainsAny(enc, "-_") {
+					kind = "std"
+				}
+			}
+			sum = "m" + kind + "!" + pre
+		}
 	}
 	if sum != "" {
 		if r.Chance(1, 6) {
@@ -482,6 +605,21 @@ func genSlink(r *vh.Rand) string {
 		p = "0"
 	}
 	return "sl " + p + "|" + joinList(rules, "/") + "|" + hx(host) + ";" + hx(ra) + ";" + hx(path) + ";" + joinList(qs, "+") + ";" + joinList(hs, "+")
+}
+
+// concreteEncode computes encode(pre) for a preimage without clock-relative atoms.
+func concreteEncode(pre string) (string, bool) {
+	if pre == "-" {
+		return myEncode(""), true
+	}
+	var sb strings.Builder
+	for _, a := range strings.Split(pre, "~") {
+		if a[0] != 'c' {
+			return "", false
+		}
+		sb.WriteString(mustUnhex(a[1:]))
+	}
+	return myEncode(sb.String()), true
 }
 
 func fixDash(m, ck, ek string, nodes []string) string {
